@@ -7,7 +7,7 @@ integers in decimal.  One output line per input line: `ok …`, an error name, `
   clipn  <nrows> <ncols> <c> <data…>                                        clip_to_norm
   trunc <lo> <hi> <v> | fold <lo> <hi> <v> | fmod <x> <y> | round <x>
   lapscale <eps> <delta> <sens>
-  laptr|lapfold <lo> <hi> <value> <scale> <u1> <u2> <u3> <u4>
+  laptr|lapfold <lo> <hi> <value> <eps> <delta> <sens> <u1> <u2> <u3> <u4>
   lapbd <lo> <hi> <value> <scale> <u…>
   geom <eps> <sens> <value:int> <u…> | geomtr|geomfold <lo> <hi> <eps> <sens> <value:int> <u…>
   snap <eps> <sens> <lo> <hi> <v> <bit> <mant:nat> <word:nat…>
@@ -84,12 +84,14 @@ def step (_ : Unit) (ws : List String) : Unit × String :=
       | _ => "bad-op"
     | "laptr" :: rest =>
       match parseFs rest with
-      | some [lo, hi, v, sc, u1, u2, u3, u4] =>
+      | some [lo, hi, v, eps, delta, sens, u1, u2, u3, u4] =>
+        let sc := laplaceScale eps delta sens
         s!"ok {showF (laplaceTruncated lo hi v sc u1 u2 u3 u4)} {showF (laplaceNoisy v sc u1 u2 u3 u4)}"
       | _ => "bad-op"
     | "lapfold" :: rest =>
       match parseFs rest with
-      | some [lo, hi, v, sc, u1, u2, u3, u4] =>
+      | some [lo, hi, v, eps, delta, sens, u1, u2, u3, u4] =>
+        let sc := laplaceScale eps delta sens
         match laplaceFolded lo hi v sc u1 u2 u3 u4 with
         | some (r, n) => s!"ok {showF r} {n} {showF (laplaceNoisy v sc u1 u2 u3 u4)}"
         | none => s!"hang 0 0 {showF (laplaceNoisy v sc u1 u2 u3 u4)}"
@@ -118,7 +120,9 @@ def step (_ : Unit) (ws : List String) : Unit × String :=
       match parseFs [eps, sens, lo, hi, v], bit.toNat?, mant.toNat?, words.mapM String.toNat? with
       | some [eps, sens, lo, hi, v], some bit, some mant, some words =>
         match (snapUniform mant words : Option Float) with
-        | some u => s!"ok {showF (snapping eps sens lo hi v (bit != 0) u)} {showF u}"
+        | some u =>
+          let p := snapPre eps sens lo hi v (bit != 0) u
+          s!"ok {showF (snapping eps sens lo hi v (bit != 0) u)} {showF u} {showF (RangeOps.fmod p.1 p.2 / p.2)} {showF p.2}"
         | none => "hang"
       | _, _, _, _ => "bad-op"
     | "expsel" :: u :: close :: cum =>
